@@ -1,7 +1,7 @@
 (** C03 - a successfully returned root is complete and durable in the store.
     Statements only; proofs are in Sched.v / Persist.v / Hist.v. *)
 From Coq Require Import List NArith ZArith Bool Arith Permutation.
-From Mast Require Import Prim Key Tree KeyOrder Codec Store Diff World Erase Build Spec Canon Level Inv Hist Persist Sched Reload Events MerkleHist SchedStore.
+From Mast Require Import Prim Key Tree KeyOrder Codec Store Diff World Erase Build Spec Canon Level Inv Hist Persist Sched SchedRetry Reload Events MerkleHist SchedStore.
 Import ListNotations.
 
 (** the worker pool, over ALL interleavings of starts, flag checks and completions of the queued
@@ -58,9 +58,37 @@ Proof. exact store_order_independent. Qed.
 Theorem C03_every_write_named : forall f (m : kmast), evb store_named (make_root f m).
 Proof. exact make_root_evn. Qed.
 
-(** PARTIAL: the LTS's faithfulness to goroutines, channels and sync.WaitGroup, the retry
-    behaviour after a failed write and the per-store cache prefix are established by the schedule /
-    fault engine against the implementation (tools/special.py sched), not by these theorems. *)
+(** retries (SchedRetry.v): a version of N nodes, [dirty] those the tree still holds as unpersisted,
+    [stored] those in the store; an attempt queues the dirty nodes into the pool above (any failing
+    writes, any interleaving), marks them clean only when no write failed and otherwise leaves
+    the tree's bookkeeping as it was.  After ANY number of failed and successful attempts, an attempt
+    that reports success leaves every node of the version in the store, *)
+Theorem C03_success_only_when_all_stored : forall N r0 r r',
+  covered N r0 -> attempts r0 r -> attempt r true r' -> forall i, i < N -> In i (stored r').
+Proof. exact success_means_all_stored. Qed.
+
+(** at every point in between no node is clean but unwritten, the store only grows, *)
+Theorem C03_never_clean_but_unwritten : forall N r r', attempts r r' -> covered N r -> covered N r'.
+Proof. exact attempts_covered. Qed.
+
+Theorem C03_retries_keep_the_store : forall r r', attempts r r' -> forall i, In i (stored r) -> In i (stored r').
+Proof. exact attempts_store_grows. Qed.
+
+(** and a failed attempt leaves the set of nodes to write as it was (the next one queues them all again). *)
+Theorem C03_failure_keeps_dirty_set : forall r r', attempt r false r' -> dirty r' = dirty r.
+Proof. exact failure_keeps_dirty. Qed.
+
+(** non-vacuity: two nodes, the first attempt writes one and fails on the other, the second succeeds *)
+Example C03_retry_example :
+  exists r1 r2 : rst, (attempt (RSt (0 :: 1 :: nil) nil) false r1) /\ (attempt r1 true r2) /\ (stored r1 = 0 :: nil) /\
+    (dirty r1 = 0 :: 1 :: nil) /\ (dirty r2 = nil) /\ (covered 2 (RSt (0 :: 1 :: nil) nil)).
+Proof. exact retry_after_failure. Qed.
+
+(** PARTIAL: the faithfulness of the LTS to goroutines, channels and sync.WaitGroup, of the attempt
+    relation to flush's commit closures (run only when firstStoreError is nil), and the per-store
+    cache prefix are established by the schedule / fault engine against the implementation
+    (tools/special.py sched: every failing subset, then reads of the tree and retries), not by
+    these theorems. *)
 Print Assumptions C03_returns_after_writes.
 Print Assumptions C03_gate.
 Print Assumptions C03_ok_means_all_written.
@@ -72,3 +100,7 @@ Print Assumptions C03_store_monotone.
 Print Assumptions C03_bound_after_writes.
 Print Assumptions C03_store_independent_of_completion_order.
 Print Assumptions C03_every_write_named.
+Print Assumptions C03_success_only_when_all_stored.
+Print Assumptions C03_never_clean_but_unwritten.
+Print Assumptions C03_retries_keep_the_store.
+Print Assumptions C03_failure_keeps_dirty_set.
